@@ -315,6 +315,10 @@ var c11Backoffs = []c11Backoff{
 	{20 * time.Millisecond, 2, 80 * time.Millisecond},
 	{30 * time.Millisecond, 1, 10 * time.Second},
 	{15 * time.Millisecond, 8, 60 * time.Millisecond},
+	// initial ABOVE the T5 ceiling (nothing validates initial against T5): every delay, the first one
+	// included, must still be capped at T5 (added after seeded change C11a-2 was missed)
+	{400 * time.Millisecond, 2, 60 * time.Millisecond},
+	{250 * time.Millisecond, 1, 50 * time.Millisecond},
 }
 
 const (
@@ -378,6 +382,11 @@ func c11Scenarios(c *Ctx) []c11Scenario {
 			for rep := 0; rep < 2; rep++ {
 				add(role, lifeBehaviour{Kind: k})
 			}
+		}
+		// a stall at every byte offset inside a frame (incl. exactly after the 4-byte length prefix): T8 must
+		// cover each of them (added after seeded change C11a-1 was caught by C04 only)
+		for off := 1; off <= 13; off++ {
+			add(role, lifeBehaviour{Kind: "stallMidFrame", Cut: lifeCut{"", "", off}})
 		}
 	}
 	// every failed-dial run length x backoff configuration, both roles, one representative cut
